@@ -247,30 +247,50 @@ def run(ctx):
     from rules import libtab
 
     class Q2(libtab.SAConc, StrHooks):
-        """quote2() on a concrete address: quote() is a marker that wraps the local part it is handed, so the result shows where the split was made"""
-        def prim_quote(self, E, x, args):
-            box = g1v(args[1])
-            loc_ = self.sa_bytes(E, box[1]) if isinstance(box, tuple) and box[0] == '&' else None
-            if loc_ is None:
+        """quote2() on a concrete address, down to the bytes it produces"""
+        inline_depth = 8
+
+        def _ovf(self, E, x, args, op):
+            a_, b_, p_ = g1v(args[0]), g1v(args[1]), g1v(args[2])
+            if not (isinstance(a_, int) and isinstance(b_, int) and isinstance(p_, tuple) and p_[0] == '&'):
                 return [Outcome(ret=TOP)]
-            return self._put(E, x, args, b'Q(' + loc_ + b')', False)
+            r_ = op(a_, b_)
+            return [Outcome(ret=fs(int(r_ > 0xffffffff)), sets={p_[1]: fs(r_ & 0xffffffff)})]
+
+        def prim___builtin_mul_overflow(self, E, x, args):
+            return self._ovf(E, x, args, lambda u, v: u * v)
+
+        def prim___builtin_add_overflow(self, E, x, args):
+            return self._ovf(E, x, args, lambda u, v: u + v)
+
+    def ref_quote(box):
+        specials = b'()<>@,;:\\"[] '
+        need = len(box) == 0 or any(c >= 127 or c <= 32 or c in specials for c in box) or box[:1] == b'.' or box[-1:] == b'.' or b'..' in box
+        if not need:
+            return box
+        return b'"' + b''.join((b'\\' if c in b'\r\n"\\' else b'') + bytes([c]) for c in box) + b'"'
+
+    def ref_quote2(a_):
+        if not a_:
+            return b''
+        j = a_.rfind(b'@')
+        return ref_quote(a_) if j < 0 else ref_quote(a_[:j]) + a_[j:]
     badj = []
-    for addr_, loc, dom in (('a@b', 'a', '@b'), ('a@b@c', 'a@b', '@c'), ('ab', 'ab', None), ('@', '', '@'), ('x y@z', 'x y', '@z'), ('a@', 'a', '@')):
+    for addr_ in (b'a@b', b'a@b@c', b'ab', b'@', b'x y@z', b'a@', b'a"b@c', b'.a@b', b'a.@b', b'a..b@c', b'a.b@c', b'a\nb@c', b'a\\b@c', b'\xe9@x', b'a(b@c@d', b'', b'x y'):
         H = Q2()
         H.entry = 'quote2'
         e = Engine(db, prog, H, max_states=60000)
         fid = e.frame_id(q2)
         st = {'%s::%s' % (fid, q2.params[0]): fs(('&', 'OUT')), '%s::%s' % (fid, q2.params[1]): fs(('&', 'A[0]'))}
-        for i_, ch in enumerate(addr_ + '\0'):
-            st['A[%d]' % i_] = fs(ord(ch))
+        st.update(libtab.conc_string_cells('A', addr_))
         e.run(q2, st)
         rep.count_states(e.states, e.transitions)
         outs_ = {H.sa_bytes_of(r_[1], 'OUT') for r_ in H.returns if r_[0] == 1}
-        want_ = ('Q(%s)%s' % (loc, dom or '')).encode('latin1')
+        want_ = ref_quote2(addr_)
         if outs_ != {want_}:
             badj.append((addr_, sorted(map(str, outs_)), want_))
     r1.check(not badj, 'quote2-splits-at-the-last-@', 'quote.c:quote2',
-             'deviations (address, result with quote(x) shown as Q(x), documented): %s; with the FIRST @ the rest of a local part containing "@" is emitted unquoted' % badj[:3])
+             'deviations (address, result, documented): %s; the local part is everything before the LAST @ and is quoted as a whole when it needs it (with the FIRST @ the rest of a local part containing "@" is emitted unquoted)' % badj[:3])
     r1.expect_min(6)
     rep.exhaustive_rules.append('C17.1-character-class-agreement')
 
